@@ -105,7 +105,7 @@ def run(ctx):
             if ods_enc.canonical(tree) != x:
                 ctx.machinery_error("the harness encoder and Lean's encodeDoc produce different trees: %r" % ((f, doc),))
                 continue
-            path = os.path.join(tmp, "case%d.ods" % k)
+            path = os.path.join(tmp, "case.ods")   # the same path for every document: what is read is what the file holds now
             ods_enc.write_ods(path, tree, charset)
             impl = impl_rows(path, sheet)
             os.remove(path)
@@ -193,6 +193,29 @@ def run(ctx):
         ctx.count(key="validio-sheet2", branch="validio")
         if got != [["x", "y"], ["z", ""]]:
             ctx.violation("C15:validio-sheet", "cutplace.rows with Sheet 2 returns %r" % got, {"got": got})
+        # malformed containers through the validating reader: a data-format error in every mode, never an item, never swallowed
+        for name, data in list(faults.items())[::7] + [(n_, d_) for n_, d_ in xml_faults.items() if not n_.startswith("content-cut@")][:12] + [("missing-sheet", None)]:
+            pf = os.path.join(tmp, "fault2.ods")
+            if name == "missing-sheet":
+                ods_enc.write_ods(pf, ods_enc.encode_doc({n_: False for n_ in FEATURES}, [[["only", "sheet"]]]))
+            elif name in faults:
+                with open(pf, "wb") as fh:
+                    fh.write(data)
+            else:
+                with zipfile.ZipFile(pf, "w") as z:
+                    z.writestr("mimetype", "application/vnd.oasis.opendocument.spreadsheet")
+                    if data is not None:
+                        z.writestr("content.xml", data)
+            for mode in ("raise", "yield", "continue"):
+                try:
+                    items = list(validio.rows(cid, pf, on_error=mode))
+                    got_m = "ok:%d items%s" % (len(items), ", an error among them" if any(isinstance(i_, Exception) for i_ in items) else "")
+                except Exception as error:  # noqa
+                    got_m = core.classify_exception(error)
+                ctx.count(key=("fault-mode", name, mode), branch="fault-mode:" + got_m.split(":")[0])
+                if got_m != "data:Format" and not (name.startswith("declared-encoding=") and got_m.startswith("ok:") and "error" not in got_m):
+                    ctx.violation("C15:fault-through-reader:%s:%s" % (mode, got_m.split(" ")[0].split(":")[0]), "%s read with on_error=%s: %s instead of a data-format error" % (name, mode, got_m),
+                                  {"fault": name, "mode": mode, "got": got_m})
         # sheet numbers with more than one digit, requested through the CID's Sheet property
         many = [[["sheet%d" % (k_ + 1), "x"]] for k_ in range(12)]
         p3 = os.path.join(tmp, "many.ods")
